@@ -532,6 +532,10 @@ macro_rules! aes_variants {
         triple!($b, $fam, "aes", aes_softc_z, $B, $E, $D, Flags { z: true, detect: false });
         triple!($b, $fam, "aes", aes_alt_z, $B, $E, $D, Flags { z: true, detect: false });
         triple!($b, $fam, "aes", aes_altc_z, $B, $E, $D, Flags { z: true, detect: false });
+        triple!($b, $fam, "aes", aes_autoc, $B, $E, $D, Flags { z: false, detect: DET });
+        triple!($b, $fam, "aes", aes_softc, $B, $E, $D, Flags { z: false, detect: false });
+        triple!($b, $fam, "aes", aes_alt, $B, $E, $D, Flags { z: false, detect: false });
+        triple!($b, $fam, "aes", aes_altc, $B, $E, $D, Flags { z: false, detect: false });
     }};
 }
 
@@ -645,11 +649,13 @@ pub fn build() -> Registry {
     triple!(b, "kuznyechik", "kuznyechik", kuz_soft, Kuznyechik, KuznyechikEnc, KuznyechikDec, Flags { z: false, detect: false });
     triple!(b, "kuznyechik", "kuznyechik", kuz_soft_z, Kuznyechik, KuznyechikEnc, KuznyechikDec, Flags { z: true, detect: false });
     triple!(b, "kuznyechik", "kuznyechik", kuz_compact_z, Kuznyechik, KuznyechikEnc, KuznyechikDec, Flags { z: true, detect: false });
+    triple!(b, "kuznyechik", "kuznyechik", kuz_compact, Kuznyechik, KuznyechikEnc, KuznyechikDec, Flags { z: false, detect: false });
 
     let serp: Vec<usize> = (16..=32).collect();
     single!(b, "serpent", "serpent", &serp, serpent, serpent::Serpent, "Serpent", false, clone);
     single!(b, "serpent", "serpent", &serp, serpent_z, serpent_z::Serpent, "Serpent", true, clone);
     single!(b, "serpent", "serpent", &serp, serpent_nu_z, serpent_nu_z::Serpent, "Serpent", true, clone);
+    single!(b, "serpent", "serpent", &serp, serpent_nu, serpent_nu::Serpent, "Serpent", false, clone);
 
     let bf: Vec<usize> = (4..=56).collect();
     single!(b, "blowfish", "blowfish", &bf, blowfish, blowfish::Blowfish, "Blowfish", false, clone);
